@@ -632,6 +632,7 @@ func c06Main(r *run.Runner) {
 		"T | project `n`", "T | sort by `n` asc", "T | render n with (n=1)", "T | join kind=inner (R | as n) on k", "T | where a == 'n'", "T | where m[\"n\"] == 1",
 		"T | where a > 1 | take 3", "T | join (R) on $left.n == $right.n",
 		"T | where `n`[1] == 2", "T | extend x = -`n`, y = `n` * 2", "T | where f(`n`) > 1 and `n` in (1, 2)", "T | sort by `n`[0] asc | take 2",
+		"n | join (R) on k", "n | join kind=leftouter (n) on k | count", "n | as m | join (m) on k", "n | where a | join (R | join (n) on k) on k",
 		"T | join (R) on `n`", "T | summarize max(`n`) by `n`", "T | top 3 by -`n`", "T | where iff(`n` > 1, `n`, 0) == 1",
 	}
 	letTexts := []string{"let n = 5", "let n = -5", "let n = 1 + 2", "let n = 'x'", "let n = f(1)", "let unused = 1; let n = unused + 1"}
